@@ -33,7 +33,9 @@ func ReadEncryptedLeaseSet(data []byte) (els EncryptedLeaseSet, remainder []byte
 	}
 
 	if err = els.Validate(); err != nil {
-		return
+		// Do not hand out a structurally invalid value: it is fully populated and
+		// would still pass Verify() although the parse failed.
+		return EncryptedLeaseSet{}, remainder, err
 	}
 
 	logParsedEncryptedLeaseSet(&els)
